@@ -53,6 +53,7 @@ UMATS = {
     "VfM3": [{"batch": "K12", "verif_m1": 0.25}, {"batch": "K13"}],
     "VfM4": [{}],
     "VfM10": [{"density": 0.75}, {}],          # a name that has another key ('VfM1') as prefix
+    "vfm3": [{"batch": "lower-case twin"}, {}],  # differs from 'VfM3' in capitalisation only: a different key
 }
 PTYPES = {
     "adsorbate": ["verif_p1", "verif_p2", "verif_p3", "verif_px", "molar_mass", "alias"],
